@@ -47,7 +47,8 @@ RULE = (
     "so that the occupied block ids span more than 10 x (points + selected blocks) with several blocks holding 2+ points, float64 / "
     "float32 / int64 / int32 coordinates, C / Fortran / strided matrices, BlockShuffleSplit test_size 0.05..0.5 / counts / train_size "
     "(a handful to > 100 test blocks), balancing 1..10, BlockKFold n_splits 2..10 shuffle on/off; LARGE part: 100 001 .. 260 000 samples (130 000, 230 000, random; never a multiple of 100 000) on 4x4 .. 10x10 meshes through "
-    "both cross-validators; SPELLINGS part: one configuration written with python / numpy integers, 0-d arrays, tuple / list / ndarray spacings and "
+    "both cross-validators; DEFAULTS part: cross-validators built with no optional argument against the documented defaults spelled out; EXTREMES part: "
+    "1-3 points per block with n_splits = 2 / occupied / occupied-1, balancing 1 and 2, absolute test/train sizes; SPELLINGS part: one configuration written with python / numpy integers, 0-d arrays, tuple / list / ndarray spacings and "
     "shapes, scalar spacing = equal pair, np.True_ / 1 flags, counts as python / numpy ints, fractions as float / np.float64 (np.float32 "
     "fractions are driven too but are a configuration of their own); every seeded configuration is run at least twice (same and fresh "
     "instance, after next(cv.split(X)) on an abandoned generator) with numpy's GLOBAL generator re-seeded differently before every pass; "
@@ -86,7 +87,11 @@ FLOORS = {
               "reproducible:kfold_shuffled_balanced": 190, "reproducible:kfold_shuffled_fallback": 200,
               "reproducible:kfold_shuffled_unbalanced": 500, "reproducible:shuffle_split_seeded": 170, "partially_consumed_generators": 330,
               "class:over_100000_samples:BlockKFold": 3, "class:over_100000_samples:BlockShuffleSplit": 1,
-              "class:over_100000_samples:pairs": 10, "class:over_100000_samples:labels_one_per_sample_checked": 4},
+              "class:over_100000_samples:pairs": 10, "class:over_100000_samples:labels_one_per_sample_checked": 4,
+              "eval:defaults_documented": 4, "eval:defaults_same_splits": 8, "eval:constructor_fidelity": 450, "eval:get_n_splits_matches": 7000,
+              "class:extremes:layouts_1_to_3_points_per_block": 9, "class:extremes:kfold_n_splits=2": 38, "class:extremes:kfold_n_splits=occupied": 35,
+              "class:extremes:kfold_fewer_points_per_fold_than_folds": 70, "class:extremes:shuffle_balancing=1": 55,
+              "class:extremes:shuffle_balancing=2": 55, "class:extremes:shuffle_integer_sizes": 110},
     "thorough": {"eval:split_partition": 720000, "eval:block_integrity": 720000, "eval:kfold_folds": 187000,
                  "eval:kfold_balance": 38000, "eval:kfold_equal_blocks": 149000, "eval:kfold_fallback_justified": 55000,
                  "eval:kfold_rejects_excess_splits": 5500, "eval:shuffle_n_splits": 10000, "eval:shuffle_test_block_count": 28000,
@@ -101,7 +106,11 @@ FLOORS = {
                  "reproducible:kfold_shuffled_unbalanced": 27000, "reproducible:shuffle_split_seeded": 2500,
                  "partially_consumed_generators": 16000,
                  "class:over_100000_samples:BlockKFold": 28, "class:over_100000_samples:BlockShuffleSplit": 10,
-                 "class:over_100000_samples:pairs": 150, "class:over_100000_samples:labels_one_per_sample_checked": 40},
+                 "class:over_100000_samples:pairs": 150, "class:over_100000_samples:labels_one_per_sample_checked": 40,
+                 "eval:defaults_documented": 55, "eval:defaults_same_splits": 80, "eval:constructor_fidelity": 6000, "eval:get_n_splits_matches": 200000,
+                 "class:extremes:layouts_1_to_3_points_per_block": 120, "class:extremes:kfold_n_splits=2": 500,
+                 "class:extremes:kfold_n_splits=occupied": 450, "class:extremes:kfold_fewer_points_per_fold_than_folds": 900,
+                 "class:extremes:shuffle_balancing=1": 750, "class:extremes:shuffle_balancing=2": 750, "class:extremes:shuffle_integer_sizes": 1500},
 }
 JOBS = {"quick": 1, "thorough": 8}
 CASE_TIMEOUT_S = 300
@@ -115,8 +124,8 @@ SAMPLE_OCCUPANCIES = (0, 0, 1, 1, 2, 3, 7, 50, 200)
 
 def plan(tier):
     if tier == "quick":
-        return collections.OrderedDict(lattice=LATTICE_CHUNKS["quick"], lattice_sample=6, random2d=36, sparse_fine=10, spellings=5, large=2, nested=4, partition=2)
-    return collections.OrderedDict(lattice=LATTICE_CHUNKS["thorough"], lattice_sample=64, random2d=480, sparse_fine=160, spellings=80, large=24, nested=48, partition=24)
+        return collections.OrderedDict(lattice=LATTICE_CHUNKS["quick"], lattice_sample=6, random2d=36, sparse_fine=10, spellings=5, large=2, defaults=2, extremes=6, nested=4, partition=2)
+    return collections.OrderedDict(lattice=LATTICE_CHUNKS["thorough"], lattice_sample=64, random2d=480, sparse_fine=160, spellings=80, large=24, defaults=24, extremes=80, nested=48, partition=24)
 
 
 class _State:
@@ -531,8 +540,11 @@ def install(tap, run):
             if warned:
                 run.count("fallback_warnings")
             if complete:
+                judge_n_splits(ev, cv, xmat, labels, tests)
                 judge_kfold(ev, cv, xmat, labels, occupied, populations, tests, warned)
         elif kind == "BlockShuffleSplit":
+            if complete:
+                judge_n_splits(ev, cv, xmat, labels, tests)
             judge_shuffle(ev, cv, xmat, labels, occupied, populations, tests, complete)
         else:
             run.count("class:other_subclass")
@@ -578,6 +590,18 @@ def install(tap, run):
                         run.violation("spelling_equivalence",
                                       "the same configuration spelled differently yields different splits: [%s] versus [%s]" % (first[0], ptext),
                                       witness(cv, xmat, labels, tests=tests, other_spelling=first[0]), key="spelling")
+
+    def judge_n_splits(ev, cv, xmat, labels, tests):
+        if ev.exc is not None:
+            return
+        run.evaluated("get_n_splits_matches")
+        try:
+            said = [cv.get_n_splits(xmat), cv.get_n_splits()]
+        except Exception as exc:  # noqa: BLE001
+            said = [repr(exc)]
+        if any(v != len(tests) for v in said):
+            run.violation("get_n_splits_matches", "get_n_splits() says %r but split yielded %d splits" % (said, len(tests)),
+                          witness(cv, xmat, labels), key="get_n_splits")
 
     def judge_kfold(ev, cv, xmat, labels, occupied, populations, tests, warned):
         n, k = xmat.shape[0], int(cv.n_splits)
@@ -734,9 +758,9 @@ def install(tap, run):
                 run.count("judged_from_train_test_split")
                 judge(child, complete=False)
 
-    tap.function(vc, "block_split")
-    tap.function(vu, "partition_by_sum", post=post_pbs)
-    tap.method(bc.BaseBlockCrossValidator, "split", pre=pre_split, post=post_split, generator=True)
+    tap.function(vc, "block_split", documented={"spacing": None, "adjust": "spacing", "region": None, "shape": None})
+    tap.function(vu, "partition_by_sum", post=post_pbs)  # no optional arguments
+    tap.method(bc.BaseBlockCrossValidator, "split", pre=pre_split, post=post_split, generator=True, documented={"y": None, "groups": None})
     tap.function(ms, "train_test_split", post=post_tts)
     tap.function(ms, "cross_val_score")  # only so that nested split events know their caller
 
@@ -900,7 +924,7 @@ def _run_lattice_sample(run, index, rng):
         run.count("lattice_sample:vectors")
 
 
-def _random_layout(rng, tier, force_layout=None, npoints=None, mesh=None):
+def _random_layout(rng, tier, force_layout=None, npoints=None, mesh=None, counts=None):
     """A 2-D block layout with a point cloud whose bounding box is the layout's region; returns X, geometry, occupied count, info."""
     n_north, n_east = int(rng.integers(1, 9)), int(rng.integers(1, 9))
     if n_north * n_east == 1 and rng.random() < 0.85:
@@ -934,7 +958,7 @@ def _random_layout(rng, tier, force_layout=None, npoints=None, mesh=None):
         weight = (rng.random(cells) > rng.uniform(0.3, 0.7)).astype(float)
         if weight.sum() == 0:
             weight[int(rng.integers(0, cells))] = 1.0
-    counts = rng.multinomial(npoints, weight / weight.sum())
+    counts = rng.multinomial(npoints, weight / weight.sum()) if counts is None else np.asarray(counts).copy()
     # the bounding box must be the region: every border line needs an occupied block
     for line in (np.flatnonzero(cols == 0), np.flatnonzero(cols == n_east - 1), np.flatnonzero(rows == 0), np.flatnonzero(rows == n_north - 1)):
         if counts[line].sum() == 0:
@@ -1156,6 +1180,124 @@ def _run_large(run, index, rng):
     if pairs:
         run.sample("large", {"layout": info, "geometry": geometry, "parameters": _params_text(cvs[-1]), "n_pairs": len(pairs),
                              "test_sizes": [int(p[1].size) for p in pairs], "train_sizes": [int(p[0].size) for p in pairs]})
+
+
+DOCUMENTED_DEFAULTS = {
+    "BlockKFold": {"shape": None, "n_splits": 5, "shuffle": False, "random_state": None, "balance": True},
+    "BlockShuffleSplit": {"shape": None, "n_splits": 10, "test_size": 0.1, "train_size": None, "random_state": None, "balancing": 10},
+}
+
+
+def _build(run, cls, **kwargs):
+    """Construct a cross-validator and check that it stores exactly what it was given, and the documented default for the rest."""
+    obj = cls(**kwargs)
+    run.evaluated("constructor_fidelity")
+    expect = dict(DOCUMENTED_DEFAULTS[cls.__name__], spacing=None)
+    expect.update(kwargs)
+    stored = vars(obj)
+    wrong = {k: (stored.get(k, "<missing>"), v) for k, v in expect.items()
+             if not (k in stored and (stored[k] is v or (type(stored[k]) is type(v) and not isinstance(v, (np.ndarray, list, tuple)) and stored[k] == v)))}
+    if wrong:
+        run.violation("constructor_fidelity", "%s(%s) stores %r as (stored, given or documented default)" % (cls.__name__, ", ".join(sorted(kwargs)), wrong),
+                      {"given": {k: repr(v) for k, v in kwargs.items()}, "stored": {k: repr(v) for k, v in stored.items()}}, key="fidelity:" + cls.__name__)
+    return obj
+
+
+def _same_splits(a, b):
+    return a is not None and b is not None and len(a) == len(b) and all(
+        np.array_equal(p[0], q[0]) and np.array_equal(p[1], q[1]) for p, q in zip(a, b))
+
+
+def _run_defaults(run, index, rng):
+    """
+    Cross-validators built with NO optional argument must be the ones with the documented defaults spelled out: stored constructor
+    parameters (these classes have no get_params) equal to the documented values, identical folds (int seed for the shuffle split).
+    """
+    import verde
+
+    for rep in range(3):
+        mesh = (int(rng.integers(3, 8)), int(rng.integers(3, 8)))  # >= 9 cells so that the default 5 folds / 10 % are possible
+        xmat, geometry, info = _random_layout(rng, "quick", force_layout="C", mesh=mesh, npoints=int(rng.integers(150, 600)))
+        n_occ = info["occupied_blocks"]
+        seed = int(rng.integers(0, 2 ** 31 - 1))
+        for name in ("BlockKFold", "BlockShuffleSplit"):
+            cls, doc = getattr(verde, name), DOCUMENTED_DEFAULTS[name]
+            bare = cls(**geometry)
+            run.evaluated("defaults_documented")
+            stored = {k: v for k, v in vars(bare).items() if k in doc and not (k == "shape" and "shape" in geometry)}
+            wrong = {k: (v, doc[k]) for k, v in stored.items() if not (v is doc[k] or (v is not None and doc[k] is not None and v == doc[k] and type(v) is type(doc[k])))}
+            if wrong or set(doc) - set(vars(bare)):
+                run.violation("defaults_documented", "%s(%s) stores %r (stored, documented); missing %r"
+                              % (name, ", ".join(geometry), wrong, sorted(set(doc) - set(vars(bare)))), {"parameters": _params_text(bare)}, key="defaults:stored")
+            explicit = dict(doc)
+            explicit.update(geometry)
+            if n_occ < 5:
+                continue
+            if name == "BlockKFold":
+                a, b = _drive(run, bare, xmat, n_occ), _drive(run, cls(**explicit), xmat, n_occ)
+                # the seed alone: every other argument left to its default
+                c, d = _drive(run, _build(run, cls, shuffle=True, random_state=seed, **geometry), xmat, n_occ), \
+                    _drive(run, _build(run, cls, **dict(explicit, shuffle=True, random_state=seed)), xmat, n_occ)
+            else:
+                a, b = _drive(run, _build(run, cls, random_state=seed, **geometry), xmat, n_occ), \
+                    _drive(run, _build(run, cls, **dict(explicit, random_state=seed)), xmat, n_occ)
+                c, d = _drive(run, cls(random_state=seed, train_size=None, **geometry), xmat, n_occ), \
+                    _drive(run, cls(**dict(explicit, random_state=seed)), xmat, n_occ)
+            for got, want, what in ((a, b, "all defaults"), (c, d, "seed only")):
+                run.evaluated("defaults_same_splits")
+                if not _same_splits(got, want):
+                    run.violation("defaults_same_splits",
+                                  "%s built with its defaults (%s) does not yield the splits of the documented defaults spelled out %r: %s versus %s splits"
+                                  % (name, what, doc, None if got is None else len(got), None if want is None else len(want)),
+                                  {"X": xmat, "geometry": repr(geometry), "seed": seed,
+                                   "default_tests": None if got is None else [p[1] for p in got], "explicit_tests": None if want is None else [p[1] for p in want]},
+                                  key="defaults:splits:" + name)
+        # train_test_split relies on BlockShuffleSplit's defaults too (only n_splits=1 is forced)
+        if n_occ >= 10:
+            coords = (np.ascontiguousarray(xmat[:, 0]), np.ascontiguousarray(xmat[:, 1]))
+            verde.train_test_split(coords, coords[0] + coords[1], random_state=seed, **geometry)
+        del ST.warnlog[:]
+    run.sample("defaults", {"documented": {k: repr(v) for k, v in DOCUMENTED_DEFAULTS.items()}, "geometry": repr(geometry), "occupied_blocks": n_occ})
+
+
+def _run_extremes(run, index, rng):
+    """Ends of the parameter domains on sparse data (1-3 points per block): n_splits = 2 and = occupied blocks, balancing 1 and 2, absolute sizes."""
+    import verde
+
+    for rep in range(4):
+        n_north, n_east = int(rng.integers(1, 8)), int(rng.integers(2, 8))
+        cells = n_north * n_east
+        counts = np.where(rng.random(cells) < rng.uniform(0.4, 1.0), rng.integers(1, 4, cells), 0)
+        xmat, geometry, info = _random_layout(rng, "quick", mesh=(n_north, n_east), counts=counts)
+        n_occ = info["occupied_blocks"]
+        seed = int(rng.integers(0, 2 ** 31 - 1))
+        run.count("class:extremes:layouts_1_to_3_points_per_block")
+        for k in sorted({2, n_occ, max(2, n_occ - 1)}):
+            if k > n_occ:
+                continue
+            for balance in (True, False):
+                for shuffle in (False, True):
+                    run.count("class:extremes:kfold_n_splits=%s" % ("2" if k == 2 else "occupied" if k == n_occ else "occupied-1"))
+                    if k > xmat.shape[0] // k:
+                        run.count("class:extremes:kfold_fewer_points_per_fold_than_folds")
+                    _drive(run, _build(run, verde.BlockKFold, n_splits=k, shuffle=shuffle, random_state=seed, balance=balance, **geometry), xmat, n_occ)
+        for k in (3, 5, 10):  # the documented default and its neighbours, every flag combination
+            for balance in (True, False):
+                for shuffle in (False, True):
+                    _build(run, verde.BlockKFold, n_splits=k, shuffle=shuffle, random_state=seed, balance=balance, **geometry)
+                    _build(run, verde.BlockShuffleSplit, n_splits=k, balancing=k, test_size=0.1 if balance else 0.5, random_state=seed if shuffle else None, **geometry)
+        if n_occ >= 2:
+            sizes = [dict(test_size=1), dict(test_size=n_occ - 1), dict(test_size=None, train_size=1), dict(test_size=None, train_size=n_occ - 1),
+                     dict(test_size=1, train_size=1), dict(test_size=max(1, n_occ // 2), train_size=max(1, n_occ - n_occ // 2 - 1) or 1)]
+            for j, size_kwargs in enumerate(sizes):
+                for balancing in (1, 2):
+                    run.count("class:extremes:shuffle_balancing=%d" % balancing)
+                    run.count("class:extremes:shuffle_integer_sizes")
+                    cv = _build(run, verde.BlockShuffleSplit, n_splits=int(rng.integers(2, 6)), balancing=balancing, random_state=seed + j,
+                                **size_kwargs, **geometry)
+                    _drive(run, cv, xmat, n_occ)
+        del ST.warnlog[:]
+    run.sample("extremes", {"layout": info, "geometry": repr(geometry), "X": np.asarray(xmat)})
 
 
 def _run_spellings(run, index, rng):
@@ -1382,6 +1524,10 @@ def run_case(run, tap, stream, index, rng):
                 _run_spellings(run, index, rng)
             elif stream == "large":
                 _run_large(run, index, rng)
+            elif stream == "defaults":
+                _run_defaults(run, index, rng)
+            elif stream == "extremes":
+                _run_extremes(run, index, rng)
             elif stream == "nested":
                 _run_nested(run, index, rng)
             elif stream == "partition":
